@@ -392,20 +392,32 @@ def gen_kernels(repo):
         out.append(kernel_def('decRiceEven' + gname, e_pos, ['unsigned'], {'unsigned': ('unsigned', 'u32')}, g, generic=g))
     # --- decoder: prediction step (shape-checked, emitted structurally)
     pb = ' '.join(fn_body(dec, 'predict').split())
-    shape = ('residuals[0] += I::from_i64( predicted .iter() .rev() .zip(coefficients) .map(|(x, y)| (*x).into() * y) '
-             '.sum::<i64>() >> qlp_shift, );')
-    if shape.replace(' ', '') not in pb.replace(' ', ''):
-        raise ExtractError('predict: body no longer has the shape `residuals[0] += I::from_i64(Σ x·c >> qlp_shift)`')
+    inner = ('I::from_i64( predicted .iter() .rev() .zip(coefficients) .map(|(x, y)| (*x).into() * y) '
+             '.sum::<i64>() >> qlp_shift, )').replace(' ', '')
+    pbn = pb.replace(' ', '')
+    if ('residuals[0]+=' + inner + ';') in pbn:
+        wrapping = False
+    elif ('residuals[0]=residuals[0].wrapping_add(' + inner + ');') in pbn:
+        wrapping = True
+    else:
+        raise ExtractError('predict: body no longer has the shape `residuals[0] (+= | = ….wrapping_add)(I::from_i64(Σ x·c >> qlp_shift))`')
     if 'for split in coefficients.len()..channel.len()' not in pb or 'channel.split_at_mut(split)' not in pb:
         raise ExtractError('predict: loop shape changed')
-    out.append('/-- `residuals[0] += I::from_i64(Σ x·c >> qlp_shift)` for `I = i32` (`from_i64` = `as i32`) -/\n'
+    if wrapping:
+        tb = fn_body(dec, 'wrapping_add', 'SignedInteger::wrapping_add')
+        if not re.search(r'i32::wrapping_add\(self,\s*rhs\)', tb):
+            raise ExtractError('SignedInteger for i32 :: wrapping_add is not `i32::wrapping_add(self, rhs)`')
+    add32 = ('  pure (wrapS 32 (residual + castS 32 t1))\n' if wrapping else
+             '  let t2 ← addS p 32 "predict: residuals[0] += prediction" residual (castS 32 t1)\n  pure t2\n')
+    add64 = ('  pure (wrapS 64 (residual + t1))\n' if wrapping else
+             '  let t2 ← addS p 64 "predict: residuals[0] += prediction" residual t1\n  pure t2\n')
+    doc = 'residuals[0] = residuals[0].wrapping_add(I::from_i64(Σ x·c >> qlp_shift))' if wrapping else 'residuals[0] += I::from_i64(Σ x·c >> qlp_shift)'
+    out.append(f'/-- `{doc}` for `I = i32` (`from_i64` = `as i32`) -/\n'
                'def decPredictStep32 (p : Profile) (residual sum shift : Int) : Res Int := do\n'
-               '  let t1 ← shrX p 64 "predict: >> qlp_shift" sum shift\n'
-               '  let t2 ← addS p 32 "predict: residuals[0] += prediction" residual (castS 32 t1)\n  pure t2\n')
+               '  let t1 ← shrX p 64 "predict: >> qlp_shift" sum shift\n' + add32)
     out.append('/-- the same for `I = i64` (`from_i64` is the identity) -/\n'
                'def decPredictStep64 (p : Profile) (residual sum shift : Int) : Res Int := do\n'
-               '  let t1 ← shrX p 64 "predict: >> qlp_shift" sum shift\n'
-               '  let t2 ← addS p 64 "predict: residuals[0] += prediction" residual t1\n  pure t2\n')
+               '  let t1 ← shrX p 64 "predict: >> qlp_shift" sum shift\n' + add64)
     sb = fn_body(dec, 'read_subframe')
     grab(sb, r'(channel\.iter_mut\(\)\.for_each\(\|i\|\s*\*i\s*<<=\s*header\.wasted_bps\))', 'read_subframe: wasted-bit shift')
     out.append('/-- `*i <<= header.wasted_bps` -/\n'
